@@ -25,7 +25,7 @@ import (
 )
 
 func main() {
-	harness.Main("C14", "exploration", harness.Layer{Name: "streams", Run: layerStreams}, harness.Layer{Name: "idle", Run: layerIdle})
+	harness.Main("C14", "exploration", harness.Layer{Name: "streams", Run: layerStreams}, harness.Layer{Name: "idle", Run: layerIdle}, harness.Layer{Name: "slowclose", Run: layerSlowClose})
 }
 
 // ---------------------------------------------------------------------------------
@@ -35,6 +35,10 @@ type recvEv struct {
 	ID    int
 	Len   int
 	Sum   uint64
+	X     uint64 // checksum of the map/slice extras when the message was received ...
+	XEnd  uint64 // ... and of the very same map/slice once the stream was over
+	lab   map[string]int64
+	tag   []int64
 	Err   error
 	Panic string
 }
@@ -113,11 +117,12 @@ func runStream(l *lane, s script) *trace {
 				if err != nil {
 					tr.srvRecv = append(tr.srvRecv, recvEv{Err: err})
 				} else {
-					tr.srvRecv = append(tr.srvRecv, recvEv{ID: req.ID, Len: len(req.Message), Sum: sum(req.Message)})
+					tr.srvRecv = append(tr.srvRecv, recvEv{ID: req.ID, Len: len(req.Message), Sum: sum(req.Message), X: xsum(req.Labels, req.Tags), lab: req.Labels, tag: req.Tags})
 				}
 				tr.mu.Unlock()
 			case "send":
-				err := srv.Send(Res{ID: h.ID, Message: body(h.ID, h.Size)})
+				lab, tag := extras(h.ID, h.Size)
+				err := srv.Send(Res{ID: h.ID, Message: body(h.ID, h.Size), Labels: lab, Tags: tag})
 				tr.mu.Lock()
 				tr.srvSent = append(tr.srvSent, sendEv{ID: h.ID, Err: err})
 				tr.mu.Unlock()
@@ -147,7 +152,8 @@ func runStream(l *lane, s script) *trace {
 		for i, m := range s.Sends {
 			pause(at(s.ClientDelay, i))
 			setPos(&senderAt, "Send")
-			err := stream.Send(Req{ID: m.ID, Message: body(m.ID, m.Size)})
+			lab, tag := extras(m.ID, m.Size)
+			err := stream.Send(Req{ID: m.ID, Message: body(m.ID, m.Size), Labels: lab, Tags: tag})
 			tr.mu.Lock()
 			tr.cliSent = append(tr.cliSent, sendEv{ID: m.ID, Err: err})
 			tr.mu.Unlock()
@@ -187,7 +193,7 @@ func runStream(l *lane, s script) *trace {
 				if err != nil {
 					ev = recvEv{Err: err}
 				} else {
-					ev = recvEv{ID: res.ID, Len: len(res.Message), Sum: sum(res.Message)}
+					ev = recvEv{ID: res.ID, Len: len(res.Message), Sum: sum(res.Message), X: xsum(res.Labels, res.Tags), lab: res.Labels, tag: res.Tags}
 				}
 			}()
 			tr.mu.Lock()
@@ -244,6 +250,17 @@ func runStream(l *lane, s script) *trace {
 		}
 	}
 	cancel()
+	// the maps and slices handed out with earlier messages must still hold what they held
+	// at receipt
+	tr.mu.Lock()
+	for _, evs := range [][]recvEv{tr.cliRecv, tr.srvRecv} {
+		for i := range evs {
+			if evs[i].Err == nil && evs[i].Panic == "" {
+				evs[i].XEnd = xsum(evs[i].lab, evs[i].tag)
+			}
+		}
+	}
+	tr.mu.Unlock()
 	return tr
 }
 
@@ -280,6 +297,23 @@ func checkTrace(transport string, s script, tr *trace) (out []finding) {
 		sz, known := size[e.ID]
 		return known && e.Len == sz && e.Sum == sum(body(e.ID, sz))
 	}
+	// the map/slice part (not carried by the gRPC lanes' proto)
+	okExtras := func(e recvEv) string {
+		if transport == "grpc" {
+			return ""
+		}
+		sz, known := size[e.ID]
+		if !known {
+			return ""
+		}
+		if e.X != xsum(extras(e.ID, sz)) {
+			return "extras-differ-at-receipt"
+		}
+		if e.XEnd != e.X {
+			return "extras-changed-after-receipt"
+		}
+		return ""
+	}
 
 	// (1) requests seen by the handler: a prefix of the requests sent, in order, once
 	var got []recvEv
@@ -307,6 +341,8 @@ func checkTrace(transport string, s script, tr *trace) (out []finding) {
 		}
 		if !okPayload(e) {
 			add("request-payload", "request %d arrived with %d bytes / different content (sent %d bytes)", e.ID, e.Len, size[e.ID])
+		} else if x := okExtras(e); x != "" {
+			add("request-payload:"+x, "request %d: its map/slice fields %s (labels %v tags %v)", e.ID, x, e.lab, e.tag)
 		}
 	}
 	// (2) end-of-stream at the handler: only after CloseSend, after all earlier requests,
@@ -365,6 +401,8 @@ func checkTrace(transport string, s script, tr *trace) (out []finding) {
 			if j < len(data) && data[j].ID == snt.ID {
 				if !okPayload(data[j]) {
 					add("response-payload", "response %d arrived with %d bytes / different content (sent %d bytes)", snt.ID, data[j].Len, size[snt.ID])
+				} else if x := okExtras(data[j]); x != "" {
+					add("response-payload:"+x, "response %d: its map/slice fields %s (labels %v tags %v)", snt.ID, x, data[j].lab, data[j].tag)
 				}
 				j++
 				continue
@@ -492,8 +530,8 @@ func errStr(err error) string {
 		return "<nil>"
 	}
 	s := err.Error()
-	if len(s) > 200 {
-		s = s[:200] + "..."
+	if len(s) > 260 {
+		s = s[:130] + " ... " + s[len(s)-120:] // the cause (e.g. the syscall error) is at the end
 	}
 	return s
 }
@@ -613,13 +651,13 @@ func layerIdle(h *harness.H) {
 	wg.Wait()
 }
 
-// layerSlowClose (NOT registered; exploration with VERIF_LAYERS=slowclose after adding it to
-// main): an attempt to reproduce the open finding C14-ws-close-wait on purpose. The handler
+// layerSlowClose: the open finding C14-ws-close-wait reproduced on purpose (every run
+// prints its KNOWN-FINDING line from a deterministic witness, not only under machine load). The handler
 // sends a few responses and returns without receiving; the client has sent >= 2 requests
 // of 100-300 KiB that stay unread on the server, and does not call Receive for 800 ms
 // (longer than the server's 500 ms wait for the close acknowledgement).
 func layerSlowClose(h *harness.H) {
-	h.AddRule("slowclose: 4 scripts x {http-json, http-msgpack}: handler sends 2-5 small responses and returns one of the result kinds without receiving; the client sends 2-3 requests of 100-300 KiB, then waits 800 ms before its first Receive; same offline checker")
+	h.AddRule("slowclose: 4 scripts x {http-json, http-msgpack}: handler sends 8 x 64 KiB and returns one of the result kinds without receiving; the client uploads 40 requests of 3-5 MiB without a pause and waits 1.5 s before its first Receive (longer than the server's 500 ms wait for the close acknowledgement); same offline checker; expected outcome on the unchanged tree: the open finding C14-ws-close-wait")
 	const nLanes = 2
 	t, err := openTransports(nLanes)
 	if err != nil {
@@ -636,8 +674,10 @@ func layerSlowClose(h *harness.H) {
 		for i := 0; i < 40; i++ {
 			s.Sends = append(s.Sends, msgSpec{ID: 1000 + i, Size: r.Range(3<<20, 5<<20)}) // uploads without a pause for well over 500 ms
 		}
-		for i, k := 0, r.Range(2, 5); i < k; i++ {
-			s.Handler = append(s.Handler, hop{Op: "send", ID: 5000 + i, Size: r.Intn(300)})
+		for i := 0; i < 8; i++ {
+			// 8 x 64 KiB: more than the client's kernel accepts while its application is
+			// not reading, so part of it is still queued on the server when it gives up
+			s.Handler = append(s.Handler, hop{Op: "send", ID: 5000 + i, Size: 64 << 10})
 		}
 		s.Handler = append(s.Handler, hop{Op: "ret"})
 		s.Kind = prng.Pick(r, errKinds).Name
